@@ -205,6 +205,32 @@ impl<E> CQueue<E> {
         }
     }
 
+    /// Returns the timestamp of the event that the next call to `fetch_next`
+    /// would return, without removing the event or advancing the queue.
+    ///
+    /// Returns `None` if the queue is empty.
+    #[must_use]
+    pub fn peek_time(&self) -> Option<Duration> {
+        if self.is_empty() {
+            return None;
+        }
+        if !self.zero_event_bucket.is_empty() {
+            return Some(self.t_current);
+        }
+
+        // Same scan as in `fetch_next`, but on local copies of the cursor.
+        let mut head = self.head;
+        let mut t1 = self.t1;
+        loop {
+            let min = self.buckets[head].front_time();
+            if min <= t1 {
+                return Some(min);
+            }
+            head = (head + 1) % self.n;
+            t1 += self.t;
+        }
+    }
+
     ///
     /// Fetches the smalles event from the calender queue.
     ///
